@@ -15,7 +15,7 @@
 (*            Cls.iter_paragraphs(..) (api = "iter"); doc = the lines with  *)
 (*            the class the concretizer gave them; res = the fields of the  *)
 (*            objects obtained (empty ones dropped for "iter"), which join  *)
-(*            the live objects                                              *)
+(*            the live objects when adopt is true                           *)
 (*     split  [doc, sarg, res]       split_gpg_and_payload /                *)
 (*            gpg_stripped_paragraph: the three parts as line numbers       *)
 (*     acc    [what, ...]            the accessor tables                    *)
@@ -47,7 +47,14 @@ Note(what) == PrintT(<<"REJECT", tid, what, l>>)
 F3(exact, stop, eqr) == Flags(exact, stop, eqr, FALSE, FALSE, FALSE, FALSE)
 
 \* ---- call
-ResMatch(r, e) == r.t = e.t /\ r.x = e.x
+\* encodings: the harness reports under WHICH encodings the bytes written are the text (pure ASCII fits all)
+ResMatch(r, e) ==
+    IF r.t # e.t THEN FALSE
+    ELSE IF r.t \in {"wrote", "bytes"} THEN
+        /\ r.x.t = e.x.t
+        /\ (r.t = "wrote" => r.x.k = e.x.k)
+        /\ ((r.t = "wrote" /\ r.x.k = "t") \/ r.x.enc \in ToSet(e.x.encs))
+    ELSE r.x = e.x
 CallOk(o, e) == (o.any \/ ResMatch(o.r, e.res)) /\ Ms(o.os) = e.obs
 TCall(e) ==
     LET c  == C(e.c.op, e.c.o, e.c.n, e.c.s, e.c.v, e.c.d, e.c.o2, e.c.k, e.c.enc)
@@ -63,9 +70,9 @@ Expected(e, ws, fl) == IF e.api = "ctor" THEN <<Ctor(e.doc, ws, e.want, fl)>> EL
 Adopt(e) == os \o [i \in 1..Len(e.res) |-> [cls |-> e.ocls, enc |-> e.enc, m |-> e.res[i]]]
 TRead(e) ==
     LET ws == EffWs(e.cls, e.api, e.sarg, StmtFlags) IN
-    /\ os' = Adopt(e)
+    /\ os' = (IF e.adopt THEN Adopt(e) ELSE os)
     /\ Chk(Ms(os') = e.obs)
-    /\ IF ~InDomain(e.doc, ws) \/ (e.cls = "lenient" /\ e.sarg = "other") THEN TRUE
+    /\ IF ~InDomain(e.doc, ws) \/ (e.cls = "lenient" /\ e.sarg = "other") THEN Note("unspecified-read")
        ELSE IF Expected(e, ws, StmtFlags) = e.res THEN TRUE
        ELSE IF KnownExact /\ Expected(e, ws, F3(TRUE, FALSE, FALSE)) = e.res THEN Note("X16-fields-exact-spelling")
        ELSE IF KnownStop /\ Expected(e, ws, F3(FALSE, TRUE, FALSE)) = e.res THEN Note("X16-filter-stops-iteration")
